@@ -59,20 +59,20 @@ def debugName (E : EnumSpec) (strip : Nat) (v : Nat) : Tok :=
 
 def hexNib (n : Nat) : Char := if n < 10 then Char.ofNat (48 + n) else Char.ofNat (87 + n)
 
-/-- Rust `{:?}` of a `str` for the characters the generators use: quote, backslash, \n \r \t \0 escaped; other
-control characters as `\u{..}`; everything else (including printable non-ASCII) verbatim -/
+/-- Rust `{:?}` of a `str`: quote, backslash, \n \r \t \0 escaped, other ASCII control characters as `\u{..}`,
+printable ASCII verbatim. For text with non-ASCII characters Rust consults Unicode printability tables that are not
+modelled: the model then emits the placeholder `S(<hex of the bytes>)`, which the correspondence check resolves by
+un-escaping the implementation's quoted token back to bytes (as it does for floats). -/
 def debugStr (bytes : List Nat) : String :=
-  let s := match String.fromUTF8? (ByteArray.mk (bytes.map (fun b => UInt8.ofNat b)).toArray) with
-    | some s => s
-    | none => "?"
-  let esc (c : Char) : String :=
+  if bytes.any (· ≥ 128) then "S(" ++ String.join (bytes.map (fun b => String.singleton (hexNib (b / 16)) ++ String.singleton (hexNib (b % 16)))) ++ ")" else
+  let esc (n : Nat) : String :=
+    let c := Char.ofNat n
     if c == '"' then "\\\"" else if c == '\\' then "\\\\" else if c == '\n' then "\\n" else if c == '\r' then "\\r"
     else if c == '\t' then "\\t" else if c == '\x00' then "\\0" else if c == '\'' then "'"
-    else if c.toNat < 32 || c.toNat == 127 then
-      let n := c.toNat
+    else if n < 32 || n == 127 then
       "\\u{" ++ (if n ≥ 16 then String.singleton (hexNib (n / 16)) else "") ++ String.singleton (hexNib (n % 16)) ++ "}"
     else String.singleton c
-  "\"" ++ String.join (s.toList.map esc) ++ "\""
+  "\"" ++ String.join (bytes.map esc) ++ "\""
 
 /-- the lexical layer: a token as characters. Floats are rendered by Rust's `Display` (not modelled): the
 placeholder is resolved by the correspondence check. -/
